@@ -142,3 +142,13 @@ def register(claim, na):
           "submitted in a NORMAL-mode experiment running on the virtual scheduler: submit must raise with registry and unfinishedJobs unchanged "
           "and nothing launched.",
           "Closed value alphabet (one conforming value per shape); bool accepts everything by design; Union not covered.", "DESIGN.md 3/C15")
+
+    claim("C20", "G+F", "exploration",
+          "bounded-exhaustive enumeration of configuration graphs with deprecated classes at every position, and explicit-state BFS over workspace states with the real repair command as transitions",
+          "(a) For every description within (N,k), each node whose class has a deprecated twin is replaced by the twin (one at a time and all "
+          "together): all identifiers must be those of the description with the replacement classes. (b) Workspaces are written by the real scheduler "
+          "(virtual world) with the class not yet deprecated; from each, `deprecated list`, `--fix`, `--fix --cleanup` are applied in every order until "
+          "no new canonical jobs/ tree appears (previously linked and partially repaired states arise by themselves); in every state the job data must "
+          "still exist; after any --fix the new path must resolve to the old files and re-submitting the replacement class in a virtual experiment "
+          "must launch nothing. One known finding (renamed class) is listed in known_findings.txt.",
+          G_NOTE + " Two deprecated pairs (moved, renamed), <=2 former jobs per workspace.", "DESIGN.md 3/C20")
